@@ -150,6 +150,7 @@ class HP(object):
   def __init__(self, ip):
     self.ip = ip
     self.calls = []
+    self.picked = {}
 
   def obj(self):
     me = self
@@ -162,7 +163,9 @@ class HP(object):
       # fork: one path per member
       for i, v in enumerate(vals[:-1]):
         if ip.truth(SBool(z3.Bool("hp_%s_is_%d" % (len(me.calls), i)))):
+          me.picked[name] = v
           return v
+      me.picked[name] = vals[-1]
       return vals[-1]
 
     def fixed(ip, name, value, *a, **k):
@@ -278,6 +281,236 @@ def adjust_scenario(form):
   return scenario
 
 
+def _mk_layer(cls, name, **attrs):
+  a = dict(attrs)
+  a["name"] = name
+  w = a.pop("wshape", None)
+  if w is not None:
+    a["get_weights"] = Builtin("get_weights", lambda ip, w=w: [_weight(w)])
+  return Obj(ExtClass(cls), a, label=name)
+
+
+QM_CONFIG = {
+    "kernel": {"binary": 1, "quantized_bits(4,0,1)": 4, "quantized_bits(8,0,1)": 8},
+    "bias": {"quantized_bits(4,0,1)": 4, "quantized_bits(8,3,1)": 8},
+    "activation": {"binary": 1, "quantized_relu(6,2)": 6},
+    "linear": {"binary": 1, "quantized_bits(4,0,1)": 4},
+    "pointwise_kernel": {"binary": 1, "quantized_bits(4,0,1)": 4},
+    "recurrent_kernel": {"binary": 1, "quantized_bits(4,0,1)": 4},
+    "recurrent_activation": {"binary": 1, "quantized_relu(3,1)": 3},
+}
+_ROLE_OF_KEY = {"kernel_quantizer": "kernel", "depthwise_quantizer": "kernel", "bias_quantizer": "bias",
+                "activation": "activation", "recurrent_quantizer": "recurrent_kernel",
+                "pointwise_quantizer": "pointwise_kernel", "recurrent_activation": "recurrent_activation"}
+
+
+def qm_scenario(kind):
+  """AutoQKHyperModel.quantize_model, for ALL tuner outcomes (one path per hp.Choice member).  clone_model and
+  model_quantize are replaced by their contracts (clone returns the model; model_quantize is a spy recording the
+  quantization dictionary it is handed); _get_quantizer runs for real and is additionally observed (its own
+  limit / membership contract is the _get_quantizer cases).  The dictionary is the object the property speaks about.
+  kind: 'dense' (Dense/Activation/Conv2D/unlisted layers, class limits) | 'indexes' (layer_indexes given) |
+        'filters' (tune_filters='layer') | 'seq' (two recurrent layers with per-name limits) |
+        'seq_class' (LSTM + GRU under class limits) |
+        'sep' (two separable convolutions with per-name limits)"""
+  def scenario(ip):
+    s = Scen()
+    cls = ip.find(AQ)
+    import re as _re
+    spy = {}
+    gq = []
+
+    def mq(ip_, fv, a, k):
+      spy["args"], spy["kw"] = list(a), dict(k)
+      return Obj(ExtClass("QModel"), {"spied": True})
+    ip.overrides["qkeras.utils::model_quantize"] = mq
+    ip.overrides["qkeras.utils::clone_model"] = lambda ip_, fv, a, k: a[0]
+    GQK = "qkeras.autoqkeras.autoqkeras_internal::AutoQKHyperModel._get_quantizer"
+
+    def gq_spy(ip_, fv, a, k):
+      del ip_.overrides[GQK]
+      try:
+        r_ = ip_.call_func(fv, a, k)
+      finally:
+        ip_.overrides[GQK] = gq_spy
+      gq.append((a[2], a[3], a[4], tuple(r_)))          # head, layer name, layer class, (name, bits)
+      return r_
+    ip.overrides[GQK] = gq_spy
+    u = z3.Int("units")
+    s.vars["units"] = u
+    ip.assume(z3.And(u >= 1, u <= 64))
+    tune, layer_indexes = "none", None
+    if kind in ("dense", "indexes", "filters"):
+      layers = [_mk_layer("InputLayer", "in0"),
+                _mk_layer("Dense", "dense_a", use_bias=True, activation="relu", units=SNum(u), wshape=(7, 5)),
+                _mk_layer("Activation", "act_1", activation="relu"),
+                _mk_layer("Conv2D", "conv_b", use_bias=False, activation="linear", filters=SNum(u), wshape=(3, 3, 2, 5)),
+                _mk_layer("Flatten", "flat"),
+                _mk_layer("BatchNormalization", "bn_1"),
+                _mk_layer("Dense", "dense_c", use_bias=True, activation="softmax", units=10, wshape=(5, 10)),
+                _mk_layer("Activation", "act_sm", activation="softmax")]
+      limit = {"Dense": [4, 8, 6], "Conv2D": [8, 8, 6], "Activation": [6], "BatchNormalization": []}
+      if kind == "indexes":
+        layer_indexes = [1, 2, 5]
+      if kind == "filters":
+        tune = "layer"
+        limit = {"Dense": [1, 4, 1], "Conv2D": [1, 4, 1], "Activation": [1]}   # single admissible quantizers: only the filter choices fork
+    elif kind == "seq_class":
+      # class limits: no pattern group, every tensor of every layer is its own tuner choice
+      layers = [_mk_layer("LSTM", "lstm_1", use_bias=True, activation="tanh", wshape=(4, 8)),
+                _mk_layer("GRU", "gru_2", use_bias=False, activation="tanh", wshape=(4, 8))]
+      limit = {"LSTM": [4, 4, 4, 1], "GRU": [4, 4, 4, 1]}
+    elif kind == "seq":
+      layers = [_mk_layer("LSTM", "lstm_1", use_bias=True, activation="tanh", wshape=(4, 8)),
+                _mk_layer("LSTM", "lstm_2", use_bias=True, activation="tanh", wshape=(4, 8))]
+      limit = {"^lstm_1$": [1, 4, 1, 1], "^lstm_2$": [8, 8, 4, 6], "LSTM": [8, 8, 8, 8]}
+    else:
+      layers = [_mk_layer("SeparableConv2D", "sep_1", use_bias=False, activation="linear", filters=4, wshape=(3, 3, 2, 1)),
+                _mk_layer("SeparableConv2D", "sep_2", use_bias=False, activation="linear", filters=4, wshape=(3, 3, 2, 1))]
+      limit = {"^sep_1$": [1, 4, 1], "^sep_2$": [8, 8, 6], "SeparableConv2D": [8, 8, 8]}
+    model = Obj(ExtClass("Model"), {"layers": layers})
+    exc = Obj(ExtClass("Pattern"), {"search": Builtin("search", lambda ip_, name: None)})
+    hm = Obj(cls, {"limit": limit, "groups": {}, "quantization_config": QM_CONFIG, "model": model, "custom_objects": {},
+                   "tune_filters": tune, "tune_filters_exceptions": exc, "layer_indexes": layer_indexes,
+                   "activation_bits": 4, "transfer_weights": False})
+    hp = HP(ip)
+    s.replay = {"kind": kind}
+    r = run_call(ip, ip.getattr(hm, "quantize_model"), [hp.obj()])
+    s.claim("no_raise", r[0] == "return")
+    if r[0] != "return" or "args" not in spy:
+      s.info["raised"] = str(r[1])
+      s.claim("handed_to_model_quantize", False)
+      return s
+    qd = spy["args"][1]
+    s.claim("handed_to_model_quantize", spy["args"][0] is model and isinstance(qd, dict) and
+            spy["args"][2] == 4 and spy["kw"].get("transfer_weights") is False and r[1][0].attrs.get("spied") is True)
+    sel = [l for i, l in enumerate(layers) if layer_indexes is None or i in layer_indexes]
+    names_sel = [l.attrs["name"] for l in sel]
+    s.claim("only_selected_layers", all(n in names_sel for n in qd))
+
+    def limited(l):
+      c = l.cls.name
+      return c in limit or any(_re.match(pt, l.attrs["name"]) for pt in limit)
+    s.claim("unlimited_unquantized", all(limited(l) for l in layers if l.attrs["name"] in qd))
+    REG = ("Dense", "Conv2D", "LSTM", "GRU", "SeparableConv2D")
+    suffix = {"kernel_quantizer": "_kernel", "depthwise_quantizer": "_kernel", "bias_quantizer": "_bias",
+              "activation": "_activation", "recurrent_quantizer": "_recurrent_kernel",
+              "pointwise_quantizer": "_pointwise_kernel", "recurrent_activation": "_recurrent_activation"}
+    own = {}
+    for head, lname, lcls, res in gq:
+      own.setdefault((lname, head), res)
+    ok_member, ok_limit, ok_roles, ok_own = True, True, True, True
+    stale = []
+    for l in sel:
+      n, c = l.attrs["name"], l.cls.name
+      if n not in qd:
+        continue
+      ent = qd[n]
+      key = next((pt for pt in limit if _re.match(pt, n)), c)
+      lim = limit.get(key)
+      if lim is None:
+        continue                      # an unlimited layer in the dictionary: reported by unlimited_unquantized
+      if c == "Activation":
+        ok_member = ok_member and ent in QM_CONFIG["activation"]
+        ok_limit = ok_limit and QM_CONFIG["activation"].get(ent, 99) <= lim[-1]
+        ok_own = ok_own and own.get((n, n + "_activation"), (None,))[0] == ent
+        continue
+      if c not in REG:
+        ok_roles = ok_roles and ent == {}
+        continue
+      idx = {"kernel": 0, "bias": 1, "activation": -1}
+      for k_, v_ in ent.items():
+        role = _ROLE_OF_KEY.get(k_)
+        if role is None:
+          ok_roles = False
+          continue
+        # the entry is this layer's OWN choice for this tensor (the value _get_quantizer returned for its head)
+        if own.get((n, n + suffix[k_]), (None,))[0] != v_:
+          ok_own = False
+          stale.append("%s[%s] = %s, own choice %s" % (n, k_, v_, own.get((n, n + suffix[k_]), (None,))[0]))
+        if role in idx:
+          if not any(v_ in sec for sec in QM_CONFIG.values()):
+            ok_member = False
+            stale.append("%s[%s] = %s is not a quantizer of the configuration" % (n, k_, v_))
+          elif max(sec[v_] for sec in QM_CONFIG.values() if v_ in sec) > lim[idx[role]]:
+            ok_limit = False
+            stale.append("%s[%s] = %s exceeds the limit %s" % (n, k_, v_, lim[idx[role]]))
+      want = {"depthwise_quantizer" if c == "SeparableConv2D" else "kernel_quantizer"}
+      if l.attrs.get("use_bias"):
+        want.add("bias_quantizer")
+      if l.attrs.get("activation") not in ("linear", "softmax", None):
+        want.add("activation")
+      if c in ("LSTM", "GRU"):
+        want.update({"recurrent_quantizer", "recurrent_activation"})
+      if c == "SeparableConv2D":
+        want.add("pointwise_quantizer")
+      ok_roles = ok_roles and set(ent) == want
+    s.claim("member_of_configuration", ok_member)
+    s.claim("within_limit", ok_limit)
+    s.claim("roles_complete", ok_roles)
+    if stale:
+      s.info["raised"] = "; ".join(stale)
+    s.claim("own_choice", ok_own)
+    # registered layers that are selected and limited ARE quantized (their kernel choice is never None here)
+    s.claim("limited_selected_quantized", all(l.attrs["name"] in qd for l in sel if l.cls.name in REG))
+    # architecture: units / filters are those of the reference (no filter tuning) or the tuner's factor applied
+    if kind == "filters":
+      fac = {}
+      for c_ in hp.calls:
+        if c_[1].startswith("network_filters_"):
+          fac[c_[1][len("network_filters_"):]] = c_
+      s.claim("filter_choices_per_layer", set(fac) == {"dense_a", "conv_b", "dense_c"} and
+              all(list(c_[2]) == [0.5, 0.75, 1.0, 1.5, 2.0] for c_ in fac.values()))
+      picked = hp.picked
+      goals = []
+      for lname, attr, ref in (("dense_a", "units", z3.ToReal(u)), ("conv_b", "filters", z3.ToReal(u)),
+                               ("dense_c", "units", z3.RealVal(10))):
+        f = picked.get("network_filters_" + lname)
+        lay = [l for l in layers if l.attrs["name"] == lname][0]
+        if f is None:
+          goals.append(z3.BoolVal(False))
+          continue
+        sc = z3.ToReal(z3.ToInt(ref * z3.RealVal(str(f))))
+        goals.append(Q.num_value(lay.attrs[attr]) == z3.If(sc >= 1, sc, z3.RealVal(1)))
+      s.claim("filters_scaled", z3.And(*goals))
+    else:
+      same = [Q.num_value(layers[1].attrs["units"]) == z3.ToReal(u), Q.num_value(layers[3].attrs["filters"]) == z3.ToReal(u)] \
+          if kind in ("dense", "indexes") else []
+      s.claim("architecture_kept", z3.And(*same) if same else True)
+      s.claim("no_filter_choice", not any(c_[1].startswith("network_filters") for c_ in hp.calls))
+    return s
+  return scenario
+
+
+def role_scenario(head, lcls, role, index):
+  """_get_quantizer for the recurrent / pointwise tensors: the limit documented for the role
+  ('"RNN":[weight,bias,recurrent,activation]') bounds every tuner outcome, and the quantizer comes from the section
+  of the configuration named after the role."""
+  def scenario(ip):
+    s = Scen()
+    cls = ip.find(AQ)
+    lim = z3.Int("limit_bits")
+    s.vars["limit_bits"] = lim
+    ip.assume(z3.And(lim >= 1, lim <= 16))
+    L = SNum(lim, "int")
+    limit = {lcls: [8, 8, 8, 8] if lcls == "LSTM" else [8, 8, 8]}
+    limit[lcls][index] = L
+    hm = Obj(cls, {"limit": limit, "groups": {}, "quantization_config": QM_CONFIG})
+    hp = HP(ip)
+    s.replay = {"head": head, "layer_class": lcls, "role": role, "index": index}
+    r = run_call(ip, ip.getattr(hm, "_get_quantizer"), [hp.obj(), "layer_1" + head, "layer_1", lcls],
+                 {"is_kernel": "kernel" in head})
+    s.claim("no_raise", r[0] == "return")
+    if r[0] != "return":
+      s.info["raised"] = str(r[1])
+      return s
+    name, bits = r[1]
+    s.claim("from_configuration", any(name in sec and sec[name] == bits for sec in QM_CONFIG.values()))
+    s.claim("within_role_limit", Q.num_value(bits) <= z3.ToReal(lim) if isinstance(bits, SNum) else z3.IntVal(bits) <= lim)
+    return s
+  return scenario
+
+
 def bounds(vars_):
   return [v <= 16 for k, v in vars_.items() if isinstance(v, z3.ArithRef) and v.sort() == z3.IntSort()]
 
@@ -290,6 +523,15 @@ def cases(tier):
     for head in ("kernel_quantizer", "bias_quantizer", "activation"):
       out.append(Case(PROP, AQ + "._get_quantizer", "%s_%s" % (lk, head), limit_scenario(lk, head), bounds=bounds,
                       replay_kind=None, assumptions=ASSUME))
+  for kind in ("dense", "indexes", "filters", "seq", "seq_class", "sep"):
+    out.append(Case(PROP, AQ + ".quantize_model", kind, qm_scenario(kind), bounds=bounds, replay_kind="c20_qm",
+                    assumptions=ASSUME + ["clone_model returns a copy with the same layers (contract); model_quantize "
+                                          "replaced by a spy (its own behaviour is property C12)"]))
+  for head, lcls, role, index in (("_recurrent_kernel", "LSTM", "recurrent_kernel", 2),
+                                  ("_recurrent_activation", "LSTM", "recurrent_activation", 3),
+                                  ("_pointwise_kernel", "SeparableConv2D", "pointwise_kernel", 0)):
+    out.append(Case(PROP, AQ + "._get_quantizer", "role" + head, role_scenario(head, lcls, role, index), bounds=bounds,
+                    replay_kind="c20_getq", assumptions=ASSUME))
   for form in ("scalar", "list3", "list4"):
     out.append(Case(PROP, AQ + "._adjust_limit", form, adjust_scenario(form), bounds=bounds, replay_kind=None,
                     assumptions=ASSUME))
